@@ -403,13 +403,13 @@ def drive_lifetimes(rec, quick):
                 # the caller's rounding mode is the caller's: the same call under round-down and round-up must leave the control state as
                 # it found it (the values computed under a directed mode are not judged)
                 if what.startswith("first"):
-                    setc = L.fn("vh_fpenv_set_control", "v w", L.vh)
-                    for mode, mname in ((0x2000, "round-down"), (0x4000, "round-up")):
-                        setc(0x1F80 | mode)
+                    setr = L.fn("vh_fpenv_set_round", "v w", L.vh)
+                    for mode, mname in ((1, "round-down"), (2, "round-up")):
+                        setr(mode)
                         fp1 = L.fpenv()
                         call(t, mm, data if mm == m else data2)
                         why2 = L.fpenv_check(fp1)
-                        setc(0x1F80)
+                        setr(0)
                         if why2:
                             rec.violation("%s m=%d called in %s mode: %s" % (name, mm, mname, why2), {"kind": name, "m": mm})
             data2 = dbl(8 * m)
